@@ -37,6 +37,11 @@ def installed(sim, store=None, scheduler=True):
 
     from . import simfs
 
+    # dask-expr keeps a WeakValueDictionary of expressions by name: garbage of an earlier
+    # run with the same seeded uuids must be gone before this run starts
+    gc.collect()
+    gc_was_enabled = gc.isenabled()
+    gc.disable()        # finaliser timing must not depend on allocation counts
     real_time_mod = retrying.time
     real_uuid4 = _uuid.uuid4
     fake = _SimTime(time=lambda: sim.now, sleep=lambda s: sim.sleep(float(s)),
@@ -45,6 +50,22 @@ def installed(sim, store=None, scheduler=True):
     def seeded_uuid4():
         return _uuid.UUID(int=sim.rng.getrandbits(128), version=4)
 
+    real_should_reject = retrying.Retrying.should_reject
+
+    def observing_should_reject(self, attempt):
+        # observation only: which exception made `retrying` go round again
+        if attempt.has_exception:
+            e = attempt.value[1]
+            msg = str(e)
+            tag = ("not-yet-consistent" if "not yet consistent" in msg else
+                   "deletion-not-complete" if "not yet complete" in msg else "")
+            sim.event("retry-exc", (type(e).__name__, tag, attempt.attempt_number))
+            sim.count("retry_exc")
+            if tag:
+                sim.count(tag)
+        return real_should_reject(self, attempt)
+
+    retrying.Retrying.should_reject = observing_should_reject
     retrying.time = fake
     _uuid.uuid4 = seeded_uuid4
     prev_store = simfs.SimFS.CURRENT
@@ -55,9 +76,12 @@ def installed(sim, store=None, scheduler=True):
             yield
     finally:
         retrying.time = real_time_mod
+        retrying.Retrying.should_reject = real_should_reject
         _uuid.uuid4 = real_uuid4
         simfs.SimFS.CURRENT = prev_store
         gc.collect()
+        if gc_was_enabled:
+            gc.enable()
 
 
 @contextlib.contextmanager
